@@ -47,3 +47,38 @@ Print Assumptions C05_mask_is_product.
 Example C05_example :
   clip_bounds (push_clip_rect (push_clip_rect (dt_new 4 4 (repeat 0 16)) (mkrect 1 0 9 3)) (mkrect (-2) 1 3 7)) = mkrect 1 1 3 3.
 Proof. vm_compute. reflexivity. Qed.
+
+(* ---- "for rectangular clips the result inside the clip equals the unclipped drawing exactly" (ClipRestrict.v) ---- *)
+Require Import RQ.PremulDraw RQ.TotalProofs RQ.IdleProofs RQ.RasterGlue RQ.ClipRestrict.
+
+(* (5) one composite: with rectangle clips only (no clip mask in force), any layer stack closed, any transform, mask, blend
+   mode and alpha: inside the clip bounds the clipped call writes exactly what the unclipped call writes, outside it
+   leaves the pixel alone *)
+Theorem C05_rect_clip_restricts_composite : forall st src mask mr rect0 blend alpha s1 s0,
+  d_probe st = 0 -> d_layers st = [] -> top_clip_mask st = None ->
+  composite (unclip st) src mask mr rect0 blend alpha = Ok s0 ->
+  composite st src mask mr rect0 blend alpha = Ok s1 ->
+  forall X Y, 0 <= X < d_w st -> 0 <= Y < d_h st ->
+    (r_in (clip_bounds st) X Y = true -> zn (d_buf s1) (Y * d_w st + X) = zn (d_buf s0) (Y * d_w st + X)) /\
+    (r_in (clip_bounds st) X Y = false -> zn (d_buf s1) (Y * d_w st + X) = zn (d_buf st) (Y * d_w st + X)).
+Proof. exact composite_rect_clip. Qed.
+Print Assumptions C05_rect_clip_restricts_composite.
+
+(* (6) every drawing operation (fill, stroke, mask, fill_rect, clear, draw_image_at, draw_image_with_size_at): on the
+   current destination (surface or innermost layer) the clipped call equals the unclipped call inside the clip bounds
+   and changes nothing outside.  fill_rect / draw_image* / clear take DIFFERENT routes with and without a clip (integer
+   fast route vs path fill); for those op_clip_side carries the hypotheses of the route-agreement theorems of C14. *)
+Theorem C05_rect_clip_restricts_drawing : forall st o s1 s0,
+  d_probe st = 0 -> top_clip_mask st = None -> op_clip_side st o ->
+  step_op st o = Ok s1 -> step_op (unclip st) o = Ok s0 -> restricts st s1 s0.
+Proof. exact rect_clip_restricts. Qed.
+Print Assumptions C05_rect_clip_restricts_drawing.
+
+(* (7) total form: on a well-formed target with an idle rasteriser, for a separable blend mode, both calls return and
+   the clipped result is the restriction of the unclipped one *)
+Theorem C05_rect_clip_restricts_total : forall st o,
+  dt_wf st -> raster_ok st -> top_clip_mask st = None -> drawing_op o = true ->
+  op_in_range st o -> op_no_wrap st o -> op_separable st o -> op_clip_geom st o ->
+  exists s1 s0, step_op st o = Ok s1 /\ step_op (unclip st) o = Ok s0 /\ dt_wf s1 /\ dt_wf s0 /\ restricts st s1 s0.
+Proof. exact rect_clip_restricts_total. Qed.
+Print Assumptions C05_rect_clip_restricts_total.
